@@ -179,7 +179,7 @@ Proof.
   apply run_app in R as [sc [Rc R]]. cbn [run] in R.
   destruct (step fx p sc LIdleExit) as [sd|] eqn:ED; [|discriminate]. inversion R; subst sd; clear R.
   assert (EBs : sb = set_phase s PTop).
-  { simpl in EB. unfold do_idle_enter in EB. rewrite PP in EB. destruct (_ && _); [|discriminate]. now inversion EB. }
+  { simpl in EB. unfold do_idle_enter in EB. rewrite PP in EB. destruct (existsb _ _); [|discriminate]. now inversion EB. }
   assert (PC : st_phase sc = PDrain /\ s' = set_phase sc PPoll).
   { simpl in ED. unfold do_idle_exit in ED. destruct (st_phase sc); try discriminate.
     destruct (forallb _ _); [|discriminate]. inversion ED. auto. }
